@@ -4,6 +4,7 @@ from __future__ import annotations
 
 from asyncio import (
     FIRST_COMPLETED,
+    CancelledError,
     ensure_future,
     gather,
     get_running_loop,
@@ -951,6 +952,10 @@ class Executor(Generic[TContext]):
             abort = ensure_future(abort_signal.wait())
             try:
                 await wait({task, abort}, return_when=FIRST_COMPLETED)
+            except CancelledError:
+                # cancelled from outside: do not orphan the wrapped awaitable
+                task.cancel()
+                raise
             finally:
                 if not abort.done():
                     abort.cancel()
